@@ -574,7 +574,7 @@ class FnTr:
                 self.emit(f"let {v.elems[i].lean} := {val.lean};")
                 return
             ty = v.ty if v.ty is not None else self.inferred.get(v.key)
-            if not (isinstance(ty, tuple) and ty[0] == "arr" and ty[1] != "u8"):
+            if not (isinstance(ty, tuple) and ty[0] in ("arr", "slice") and ty[1] != "u8"):
                 raise Unsupported("element assignment into this type")
             if ty[1] is None and val.ty is not None:
                 self.infer(v.key, ("arr", val.ty, ty[2]))
@@ -822,6 +822,8 @@ class FnTr:
                 return Val(f"BitVec.ofNat {INT[to]} {v.atom()}", to)
             if to == "nat" and v.ty == "nat":
                 return v
+            if v.ty == "bool" and (to == "nat" or to in INT):
+                return Val(f"{v.atom()}.toNat", "nat") if to == "nat" else Val(f"BitVec.ofNat {INT[to]} {v.atom()}.toNat", to)
             raise Unsupported(f"cast {v.ty} as {to}")
         if k == "un":
             v = self.expr(e[2], want)
@@ -1345,20 +1347,37 @@ class FnTr:
 
     def if_expr(self, e, want):
         _, c, th, el = e
+        self.preflush(e)
         cv = self.expr(c, "bool")
         if el is None:
             raise Unsupported("if without else in value position")
+        # variables assigned inside the branches are returned together with the value
+        names = self.assigned(th[0], th[1])
+        for n in self.assigned(el[0], el[1]):
+            if n not in names:
+                names.append(n)
         def br(b):
             def f():
                 self.stmts(b[0])
                 v = self.expr(b[1], want)
-                return v
+                self.end_scope()
+                return v, (self.tuple_of(names) if names else None)
             return self.sub(f)
-        l1, v1 = br(th)
-        l2, v2 = br(el)
+        l1, (v1, t1) = br(th)
+        l2, (v2, t2) = br(el)
         ty = v1.ty if v1.ty is not None else v2.ty
         v1, v2 = self.fix(v1, ty), self.fix(v2, ty)
-        return Val(f"if {cv.lean} then {self.render(l1, v1.lean)} else {self.render(l2, v2.lean)}", ty)
+        if not names:
+            return Val(f"if {cv.lean} then {self.render(l1, v1.lean)} else {self.render(l2, v2.lean)}", ty)
+        if v1.elems is not None or v2.elems is not None:
+            raise Unsupported("array-valued if with assignments in its branches")
+        def strip(t):
+            return t[1:-1] if t.startswith("(") and t.endswith(")") else t
+        r = self.fresh("b")
+        pat = f"({r}, {strip(self.tuple_of(names))})"
+        self.emit(f"let {pat} := if {cv.lean} then {self.render(l1, '(' + v1.lean + ', ' + strip(t1) + ')')} "
+                  f"else {self.render(l2, '(' + v2.lean + ', ' + strip(t2) + ')')};")
+        return Val(r, ty)
 
     def block_expr(self, stmts, tail, want):
         if tail is None:
@@ -1588,7 +1607,7 @@ class FnTr:
                 if b is not None:
                     self.stmts(b[0])
                     if b[1] is not None:
-                        self.expr(b[1])
+                        self.stmt(("expr", b[1]), [])       # statement context: an `else if` chain, a unit-valued block
                 self.end_scope()
                 return self.tuple_of(names)
             return self.sub(f)
@@ -1827,7 +1846,7 @@ class FnTr:
         comps = []
         if ret_ty is None:
             if tail is not None:
-                self.expr(tail)
+                self.stmt(("expr", tail), [])          # a unit-valued tail (`if … { … } else if … { … }`) is a statement
         else:
             if tail is None:
                 raise Unsupported("function with a return type but no tail expression")
